@@ -167,8 +167,13 @@ class Cont:
         return out
 
 
+ODD_SUFFIXES = ["(1)", "(a)", "'", "-a", "+", "\u00e9", "*", "@x", "&", "#2", "()", "=", "%41", '"']
+
+
 class Defn:
-    def __init__(self, rng, apid_name="PKT_APID", max_depth=3, fanout=3, neg_lengths=False, adj_pool=None, rich=False):
+    def __init__(self, rng, apid_name="PKT_APID", max_depth=3, fanout=3, neg_lengths=False, adj_pool=None, rich=False,
+                 odd_names=False):
+        self.odd_names = odd_names
         self.rng = rng
         self.neg_lengths = neg_lengths
         self.adj_pool = adj_pool    # slope/intercept pairs for length adjustments (definitions that are not encoded)
@@ -189,6 +194,9 @@ class Defn:
 
     def _pname(self, prefix="P"):
         self.count += 1
+        if self.odd_names and self.rng.random() < 0.25:
+            # XTCE's NameType excludes only `. / : [ ]` and blanks: every one of these is a legal name
+            return f"{prefix}{self.count}" + self.rng.choice(ODD_SUFFIXES)
         return f"{prefix}{self.count}"
 
     def _body(self, c, nfields):
